@@ -42,9 +42,42 @@ def enc_message(rng, g, side=None):
     return dict(root="Response", data=data, cc=cc, enc=True, label="response:%s:enc" % L.commands[cc]["name"])
 
 
+def container_history(rng, g):
+    """A, B, A over capture containers: the front-ends (pcapng link-layer parsers, text scanners) are part of "decoding"
+    and must not remember anything from one capture to the next either"""
+    from .. import medium
+    blobs = []
+    for j in range(2):
+        trees = []
+        for _ in range(rng.randint(1, 2)):
+            trees += list(g.exchange())
+        data, _, bounds = gen.serialise_stream(trees)
+        msgs = [data[a:b] for a, b in zip(bounds, bounds[1:])]
+        kind = rng.choice(("pcapng-ip", "pcapng-eth", "pcapng-mixed", "hex", "swtpm")) if j else rng.choice(("pcapng-ip", "pcapng-ip", "pcapng-eth", "hex"))
+        if kind.startswith("pcapng"):
+            blob, _m = medium.write_pcapng(msgs, rng, ether=(kind == "pcapng-eth"), mixed=(kind == "pcapng-mixed"))
+            front = "pcapng"
+        elif kind == "hex":
+            blob, front = medium.write_hex(data, rng), "hex"
+        else:
+            blob, front = medium.write_swtpm_log(data, bounds, rng), "swtpm"
+        blobs.append((kind, front, blob))
+    order = rng.choice(([0, 1, 0], [0, 1, 0], [1, 0, 1], [0, 1, 1, 0]))
+    tasks = []
+    for pos, r in enumerate(order):
+        kind, front, blob = blobs[r]
+        tasks.append(dict(id="d%d_%d" % (pos, r), front=front, type=model.STREAM, data=blob.hex(), cc=None, enc=None, strict=True,
+                          source=rng.choice(("bytes", "gen", "list"))))
+    return tasks, "containers:%s" % "+".join(b[0] for b in blobs)
+
+
 def make_case(i, rng, tier):
     k = gen.Knobs(rng)
     g = gen.Gen(rng, k)
+    if rng.random() < 0.12:
+        tasks, label = container_history(rng, g)
+        return {"input": {"label": label, "n": 2, "history": "containers", "probe": None},
+                "tasks": tasks, "schedule": {"policy": "sequential", "order": [t["id"] for t in tasks]}}
     n = rng.randint(2, 4)
     msgs = []
     for j in range(n):
@@ -72,21 +105,7 @@ def make_case(i, rng, tier):
     # bystanders that ask for parameter encryption on *any* command (also those without a size-prefixed first
     # parameter - their own outcome is not judged here): every parameter layout of the tables gets its turn at the
     # type synthesis, which is what a bounded / keyed cache needs in order to forget something
-    L = layout()
-    for j in range(rng.choice((0, 1, 1, 2, 3))):
-        cc = rng.choice(sorted(L.commands))
-        if rng.random() < 0.5:
-            tree = g.response(cc, enc=False, fail=False, n_sessions=1)
-            data, _ = gen.serialise(tree)
-            tasks.append(common.spec("sweep%d" % j, "Response", data, cc, True, strict=rng.random() < 0.5))
-        else:
-            tree, _ = g.command(cc=cc, n_sessions=1, enc=False, resp_enc=False)
-            data, items = gen.serialise(tree)
-            # set the decrypt attribute of the only session in place
-            at = next(it for it in items if it[0] == "P" and it[1].endswith(".sessionAttributes"))
-            b = bytearray(data)
-            b[at[4]] |= 0x20
-            tasks.append(common.spec("sweep%d" % j, "Command", bytes(b), None, None, strict=rng.random() < 0.5))
+    tasks += common.enc_sweep_specs(rng, g, rng.choice((0, 1, 1, 2, 3)))
     probe = rng.randrange(N_PROBES) if rng.random() < 0.04 else None
     policy = {"ABA": "sequential", "AA": "sequential", "ABCA": "sequential"}.get(hist) if rng.random() < 0.5 else None
     specs, sched = common.perturb(rng, tasks, p_by=0.4)
